@@ -52,6 +52,8 @@ pub enum SOp {
     Tmpfile,
     /// a pipe, both ends switched to non-blocking mode at once (two slots)
     Pipe,
+    /// lower the soft limit on open descriptors to N
+    Limit(u8),
     /// a large write (pipe capacity questions are not compared: only used on
     /// regular files)
     BigWrite(u8),
@@ -135,6 +137,7 @@ pub fn generate(rng: &mut Rng, long: bool) -> SHist {
             27 => SOp::ListDir(path(rng)),
             28 => SOp::IsDir(path(rng)),
             29 if rng.bool() => SOp::Pipe,
+            29 => SOp::Limit(*rng.pick(&[3u8, 4, 5, 6, 8, 12])),
             _ => SOp::Tmpfile,
         });
     }
@@ -158,7 +161,20 @@ fn errname(e: Errno) -> String {
 /// directory the history started in (its name is hidden in `getcwd` results).
 pub fn run_ops<S>(sys: &S, h: &SHist, base: &str) -> Vec<String>
 where
-    S: Open + Close + Read + Write + Seek + Dup + Fcntl + Fstat + Umask + GetCwd + Chdir + yash_env::system::Pipe,
+    S: Open
+        + Close
+        + Read
+        + Write
+        + Seek
+        + Dup
+        + Fcntl
+        + Fstat
+        + Umask
+        + GetCwd
+        + Chdir
+        + yash_env::system::Pipe
+        + yash_env::system::resource::GetRlimit
+        + yash_env::system::resource::SetRlimit,
 {
     let mut slots: Vec<Option<Fd>> = vec![None; 5];
     let mut out = Vec::new();
@@ -208,7 +224,7 @@ where
                     Some(Ok(fd)) => match slots.iter().position(Option::is_none) {
                         Some(k) => {
                             slots[k] = Some(fd);
-                            format!("open: ok slot {k}")
+                            format!("open: ok slot {k} fd {}", fd.0)
                         }
                         None => {
                             sys.close(fd).ok();
@@ -270,7 +286,7 @@ where
                             match slots.iter().position(Option::is_none) {
                                 Some(k) => {
                                     slots[k] = Some(n);
-                                    format!("dup: ok slot {k} at-or-above-min={ok_min}")
+                                    format!("dup: ok slot {k} fd {} at-or-above-min={ok_min}", n.0)
                                 }
                                 None => {
                                     sys.close(n).ok();
@@ -364,6 +380,16 @@ where
                 format!("isdir: {}", sys.is_directory(&path))
             }
             SOp::BigWrite(_) => "bigwrite: -".into(),
+            SOp::Limit(n) => {
+                use yash_env::system::resource::{LimitPair, Resource};
+                match sys.getrlimit(Resource::NOFILE) {
+                    Err(e) => format!("limit: {}", errname(e)),
+                    Ok(old) => {
+                        let r = sys.setrlimit(Resource::NOFILE, LimitPair { soft: *n as _, hard: old.hard });
+                        format!("limit: {:?} now {:?}", r.map_err(errname), sys.getrlimit(Resource::NOFILE).map(|l| l.soft).map_err(errname))
+                    }
+                }
+            }
             SOp::Pipe => match sys.pipe() {
                 Err(e) => format!("pipe: {}", errname(e)),
                 Ok((r, w)) => {
@@ -373,7 +399,7 @@ where
                     if free.len() >= 2 {
                         slots[free[0]] = Some(r);
                         slots[free[1]] = Some(w);
-                        format!("pipe: ok slots {} {}", free[0], free[1])
+                        format!("pipe: ok slots {} {} fds {} {}", free[0], free[1], r.0, w.0)
                     } else {
                         sys.close(r).ok();
                         sys.close(w).ok();
@@ -533,8 +559,19 @@ pub fn run_real_batch(hists: &[SHist]) -> Option<Vec<Vec<String>>> {
 
 /// Compares one history; returns (class, key, detail) on divergence.
 pub fn compare(h: &SHist, sim: &[String], real: &[String], reach: &mut BTreeMap<&'static str, u64>) -> Option<(String, String, String)> {
+    // Which of several applicable errors a call reports is not specified: when
+    // no descriptor is available the kernels may name that (EMFILE; EINVAL for
+    // a dup whose minimum is beyond the limit) or another reason of failure.
+    let same = |a: &str, b: &str| -> bool {
+        if a == b {
+            return true;
+        }
+        let failed = |l: &str| l.contains(": Errno(");
+        let no_fd = |l: &str| l.ends_with("Errno(24)") || (l.starts_with("dup:") && l.ends_with("Errno(22)"));
+        failed(a) && failed(b) && (no_fd(a) || no_fd(b))
+    };
     for (i, (a, b)) in sim.iter().zip(real.iter()).enumerate() {
-        if a != b {
+        if !same(a, b) {
             let kind = a.split(':').next().unwrap_or("?").to_string();
             return Some((
                 "divergence:syscall".into(),
